@@ -2,7 +2,7 @@ import Xrl.Props.C08e
 /-!
 # C08 — part 2e: the variants are ordered
 
-`none ≤ radiative`, `none ≤ non-radiative`, `radiative ≤ full`, `non-radiative ≤ full` for the vacancy productions, the
+`none ≤ radiative`, `none ≤ non-radiative`, `radiative ≤ full`, `non-radiative ≤ full` for the vacancyProd productions, the
 shell and the line cross sections — wherever the transfer coefficients of the smaller variant are non-negative and
 not larger than those of the bigger one (`TransferLE`).  For `none → radiative` this is automatic (yields, rates and
 Coster–Kronig probabilities returned by the accessors are positive or 0); for the pairs involving the precomputed
@@ -112,12 +112,12 @@ theorem ck_inner_ge (l : List Int) (c : Int → ℝ) (hc : ∀ tr, 0 ≤ c tr) {
     simp only [List.foldl_cons]
     exact le_trans (le_add_of_nonneg_right (mul_nonneg (hc tr) hp)) ih
 
-/-- Coster–Kronig part of the vacancy production -/
+/-- Coster–Kronig part of the vacancyProd production -/
 noncomputable def ckSum (t : Int) (P : Int → ℝ) (o : ℝ) : ℝ :=
   (lowerSame t).foldl (fun acc u =>
     if (0.0 : ℝ) < P u then (ckList t u).foldl (fun a tr => a + ckProb T Z tr * P u) acc else acc) o
 
-/-- the vacancy production as one expression for all four variants (`transfer … .none = 0`) -/
+/-- the vacancyProd production as one expression for all four variants (`transfer … .none = 0`) -/
 noncomputable def vacVal (t : Int) (v : Variant) (P : Int → ℝ) (o : ℝ) : ℝ :=
   (inner t).foldl (fun acc s => if (0.0 : ℝ) < P s then acc + P s * transfer T Z t s v else acc) (ckSum T Z t P o)
 
@@ -132,10 +132,10 @@ theorem foldl_none (l : List Int) (P : Int → ℝ) (t : Int) (a : ℝ) :
     exact ih a
 
 theorem vacancy_value (t : Int) (v : Variant) (P : Int → ℝ) (o : ℝ) :
-    vacancy T Z t v P (.value o) = .value (vacVal T Z t v P o) := by
+    vacancyProd T Z t v P (.value o) = .value (vacVal T Z t v P o) := by
   cases v
-  · simp only [vacancy, vacVal, ckSum, foldl_none]
-  all_goals simp only [vacancy, vacVal, ckSum]
+  · simp only [vacancyProd, vacVal, ckSum, foldl_none]
+  all_goals simp only [vacancyProd, vacVal, ckSum]
 
 theorem ckSum_mono (t : Int) {P P' : Int → ℝ} (hP : ∀ s, P s ≤ P' s) (o : ℝ) : ckSum T Z t P o ≤ ckSum T Z t P' o := by
   unfold ckSum
@@ -188,7 +188,7 @@ theorem vacVal_mono (t : Int) {v v' : Variant} (hle : TransferLE T Z v v') {P P'
   exact key _ _ _ (ckSum_mono T Z t hP o)
 
 theorem vacancy_le (t : Int) {v v' : Variant} (hle : TransferLE T Z v v') {P P' : Int → ℝ} (hP : ∀ s, P s ≤ P' s)
-    (own : Expect ℝ) : ExpLE (vacancy T Z t v P own) (vacancy T Z t v' P' own) := by
+    (own : Expect ℝ) : ExpLE (vacancyProd T Z t v P own) (vacancyProd T Z t v' P' own) := by
   cases own with
   | value o => rw [vacancy_value, vacancy_value]; exact vacVal_mono T Z t hle hP o
   | fails => trivial
@@ -249,7 +249,7 @@ theorem fluorLine1_le {v v' : Variant} (hle : TransferLE T Z v v') (line : Int)
   · by_cases h2 : E ≤ (0.0 : ℝ)
     · simp only [h1, h2, if_true, if_false]; trivial
     · simp only [h1, h2, if_false]
-      cases lineShell line with
+      cases lineShellK line with
       | some s => exact lineValue_le hr (variants_ordered_shell T Z E own hle s)
       | none =>
         simp only []
